@@ -33,6 +33,7 @@ type Obligation struct {
 	TimeMS  int64
 	Model   string
 	SMTSize int
+	query   string
 }
 
 type Exec struct {
